@@ -1,6 +1,6 @@
 (** Lemmas about the Duration and Boolean codecs of C08/DurModel.v. *)
 From SpyneV Require Import Base.Digits Base.DigitsProofs C08.DtModel C08.DurModel.
-From Coq Require Import Lia ZifyBool.
+From Coq Require Import Lia ZifyBool Znumtheory.
 Ltac Zify.zify_post_hook ::= Z.to_euclidean_division_equations.
 
 (** ---- scanners on printed components ---- *)
@@ -403,4 +403,172 @@ Proof.
   destruct (dur_shape s) as [[s2 ->] | [[s2 ->] | [_ ->]]]; [| |reflexivity].
   - rewrite rd_neg. apply rd_finish_total.
   - rewrite rd_pos. apply rd_finish_total.
+Qed.
+
+(** ---- the printer ---- *)
+
+Lemma str_int_nonneg k : 0 <= k -> str_int k = str_nat k.
+Proof. intros H. unfold str_int. replace (k <? 0) with false by lia. reflexivity. Qed.
+
+(** what duration_to_unicode writes after the 'P', from the components;
+    [whole] is the whole-days test of the code *)
+Definition fmt (whole : bool) (days hours minutes seconds us : Z) : text :=
+  let d := if days =? 0 then [] else str_int days ++ [68] in
+  if whole then d
+  else
+    let h := if 0 <? hours then str_int hours ++ [72] else [] in
+    let m := if 0 <? minutes then str_int minutes ++ [77] else [] in
+    let s := if (0 <? seconds) || (0 <? us)
+             then str_int seconds ++ (if 0 <? us then 46 :: zpad 6 us else []) ++ [83] else [] in
+    let z := if (days =? 0) && negb (0 <? hours) && negb (0 <? minutes)
+                && negb ((0 <? seconds) || (0 <? us)) then [48; 83] else [] in
+    d ++ [84] ++ h ++ m ++ s ++ z.
+
+Definition dur_body (a : Z) : text :=
+  let days := a / US_DAY in
+  let secs := (a mod US_DAY) / 1000000 in
+  let us := a mod 1000000 in
+  fmt (negb (days * 86400 + secs =? 0) && (secs =? 0) && (us =? 0))
+      days ((secs / 60) / 60) ((secs / 60) mod 60) (secs mod 60) us.
+
+Lemma duration_to_unicode_body n :
+  duration_to_unicode n =
+  if n <? 0 then 45 :: 80 :: dur_body (- n) else 80 :: dur_body n.
+Proof.
+  unfold duration_to_unicode, dur_body, fmt.
+  replace (n / US_DAY <? 0) with (n <? 0) by (unfold US_DAY; lia).
+  destruct (n <? 0).
+  - destruct (negb _ && _ && _); reflexivity.
+  - destruct (negb _ && _ && _); reflexivity.
+Qed.
+
+Lemma text_eqb_nil_app l x r : text_eqb [] (l ++ x :: r) = false.
+Proof. destruct l; reflexivity. Qed.
+
+Ltac norm_text := repeat (progress (rewrite <- ?app_assoc; cbn [app]; rewrite ?app_nil_r)).
+
+Lemma su72_0S : scan_unit 72 [48; 83] = (0, [48; 83]). Proof. reflexivity. Qed.
+Lemma su77_0S : scan_unit 77 [48; 83] = (0, [48; 83]). Proof. reflexivity. Qed.
+Lemma ss_0S : scan_seconds [48; 83] = ((0, []), []). Proof. reflexivity. Qed.
+Lemma ss_nil : scan_seconds [] = ((0, []), []). Proof. reflexivity. Qed.
+
+Ltac scan_step :=
+  first
+    [ rewrite scan_unit_hit by (first [assumption | reflexivity])
+    | rewrite scan_unit_miss by (first [assumption | reflexivity | discriminate])
+    | rewrite scan_unit_nd by reflexivity
+    | rewrite scan_unit_nil
+    | rewrite su72_0S | rewrite su77_0S | rewrite ss_0S | rewrite ss_nil
+    | rewrite scan_seconds_frac by assumption
+    | rewrite scan_seconds_int by assumption ];
+  cbv beta iota.
+
+(** all 2^5 combinations of present/absent components *)
+Lemma xs_core_fmt_time days hours minutes seconds us :
+  0 <= days -> 0 <= hours -> 0 <= minutes -> 0 <= seconds -> 0 <= us < 1000000 ->
+  (days = 0 \/ 0 < hours \/ 0 < minutes \/ 0 < seconds \/ 0 < us) ->
+  xs_core (fmt false days hours minutes seconds us)
+  = Some (days * US_DAY + hours * 3600000000 + minutes * 60000000 + seconds * 1000000 + us).
+Proof.
+  intros Hd Hh Hm Hs Hu Hne. unfold fmt, xs_core.
+  rewrite ?str_int_nonneg by assumption.
+  destruct (days =? 0) eqn:Ed; destruct (0 <? hours) eqn:Eh; destruct (0 <? minutes) eqn:Em;
+    destruct (0 <? seconds) eqn:Es; destruct (0 <? us) eqn:Eu;
+    cbn [andb orb negb]; norm_text.
+  all: try (exfalso; lia).
+  all: repeat scan_step.
+  all: rewrite ?text_eqb_nil_app; cbn [text_eqb]; rewrite ?zpad_length; cbn [length Nat.leb];
+    rewrite ?frac6_zpad by assumption; cbn [frac6].
+  all: f_equal; unfold US_DAY; lia.
+Qed.
+
+Lemma xs_core_fmt_whole days : 0 < days ->
+  xs_core (fmt true days 0 0 0 0) = Some (days * US_DAY).
+Proof.
+  intros Hd. unfold fmt, xs_core. rewrite str_int_nonneg by lia.
+  replace (days =? 0) with false by lia.
+  change (str_nat days ++ [68]) with (str_nat days ++ 68 :: []) at 1.
+  rewrite scan_unit_hit by (first [lia | reflexivity]).
+  rewrite text_eqb_nil_app. reflexivity.
+Qed.
+
+Lemma xs_core_body a : 0 <= a -> xs_core (dur_body a) = Some a.
+Proof.
+  intros Ha. unfold dur_body.
+  set (days := a / US_DAY). set (secs := (a mod US_DAY) / 1000000). set (us := a mod 1000000).
+  set (hours := secs / 60 / 60). set (minutes := (secs / 60) mod 60). set (seconds := secs mod 60).
+  assert (Hsecs : 0 <= secs < 86400) by (unfold secs, US_DAY; lia).
+  assert (Hus : 0 <= us < 1000000) by (unfold us; lia).
+  assert (Hdays : 0 <= days) by (unfold days, US_DAY; lia).
+  assert (Ea : a = days * US_DAY + secs * 1000000 + us).
+  { unfold days, secs, us.
+    rewrite (Zmod_div_mod 1000000 US_DAY a) by
+      (first [reflexivity | exists 86400; reflexivity]).
+    pose proof (Z.div_mod a US_DAY ltac:(discriminate)).
+    pose proof (Z.div_mod (a mod US_DAY) 1000000 ltac:(discriminate)). lia. }
+  assert (Es : secs = hours * 3600 + minutes * 60 + seconds) by (unfold hours, minutes, seconds; lia).
+  assert (Hh : 0 <= hours) by (unfold hours; lia).
+  assert (Hm : 0 <= minutes) by (unfold minutes; lia).
+  assert (Hs : 0 <= seconds) by (unfold seconds; lia).
+  clearbody days secs us hours minutes seconds. unfold US_DAY in Ea.
+  destruct (negb (days * 86400 + secs =? 0) && (secs =? 0) && (us =? 0)) eqn:Ew.
+  - assert (hours = 0 /\ minutes = 0 /\ seconds = 0 /\ us = 0 /\ 0 < days) as (-> & -> & -> & -> & Hd) by lia.
+    rewrite xs_core_fmt_whole by exact Hd. f_equal. unfold US_DAY. lia.
+  - rewrite xs_core_fmt_time; try assumption; [f_equal; unfold US_DAY; lia|lia].
+Qed.
+
+(** B. the written text is in the D/H/M/S lexical space and denotes the value (any n) *)
+Lemma duration_out_lex_all n : xs_duration (duration_to_unicode n) = Some n.
+Proof.
+  rewrite duration_to_unicode_body. destruct (n <? 0) eqn:E.
+  - rewrite xs_duration_neg, xs_core_body by lia. cbn [option_map]. f_equal. lia.
+  - rewrite xs_duration_pos. apply xs_core_body. lia.
+Qed.
+
+Lemma duration_out_lex n : td_ok n = true -> xs_duration (duration_to_unicode n) = Some n.
+Proof. intros _. apply duration_out_lex_all. Qed.
+
+(** A. print-then-read is the identity on every timedelta *)
+Lemma duration_roundtrip n : td_ok n = true ->
+  duration_from_unicode (duration_to_unicode n) = Ok n.
+Proof. intros H. apply duration_in_lex; [apply duration_out_lex_all|exact H]. Qed.
+
+(** outside timedelta's range the reader refuses (ValidationError), it does not wrap *)
+Lemma duration_roundtrip_range n : td_ok n = false ->
+  duration_from_unicode (duration_to_unicode n) = VFault.
+Proof.
+  intros H. pose proof (duration_out_lex_all n) as Hx. rewrite duration_to_unicode_body in *.
+  destruct (n <? 0) eqn:E.
+  - rewrite xs_duration_neg in Hx. rewrite rd_neg.
+    destruct (xs_core (dur_body (- n))) as [m|] eqn:Em; [|discriminate].
+    rewrite (rd_core_xs _ m Em). apply some_inj in Hx. cbn [option_map] in Hx.
+    unfold rd_finish. replace (- m) with n by lia. rewrite H.
+    destruct (td_ok m); reflexivity.
+  - rewrite xs_duration_pos in Hx. rewrite rd_pos, (rd_core_xs _ n Hx).
+    unfold rd_finish. rewrite H. reflexivity.
+Qed.
+
+(** ---- Boolean ---- *)
+
+Lemma boolean_roundtrip b : boolean_from_unicode (boolean_to_unicode b) = b.
+Proof. destruct b; reflexivity. Qed.
+
+Lemma boolean_out_lex b : xs_boolean (boolean_to_unicode b) = Some b.
+Proof. destruct b; reflexivity. Qed.
+
+Lemma text_eqb_eq a : forall b, text_eqb a b = true -> a = b.
+Proof.
+  induction a as [|x a IH]; intros [|y b] H; try discriminate; [reflexivity|].
+  cbn [text_eqb] in H. apply andb_true_iff in H. destruct H as [H1 H2].
+  f_equal; [lia|apply IH; exact H2].
+Qed.
+
+Lemma boolean_in_lex s b : xs_boolean s = Some b -> boolean_from_unicode s = b.
+Proof.
+  unfold xs_boolean.
+  destruct (text_eqb s [116; 114; 117; 101]) eqn:E1; [apply text_eqb_eq in E1; subst; cbn; congruence|].
+  destruct (text_eqb s [49]) eqn:E2; [apply text_eqb_eq in E2; subst; cbn; congruence|].
+  destruct (text_eqb s [102; 97; 108; 115; 101]) eqn:E3; [apply text_eqb_eq in E3; subst; cbn; congruence|].
+  destruct (text_eqb s [48]) eqn:E4; [apply text_eqb_eq in E4; subst; cbn; congruence|].
+  discriminate.
 Qed.
